@@ -35,3 +35,173 @@ contract("CountingBloomFilter.check_alt", contexts=["CountingBloomFilter"], prop
          modifies=[],
          ensures=[("is_a_cell_of_the_key", "any(result == self._bloom[hashes[j] % self._num_bits] for j in range(0, len(hashes)))"),
                   ("minimum_over_the_keys_cells", "all(result <= self._bloom[hashes[j] % self._num_bits] for j in range(0, len(hashes)))")])
+
+_MV = "min(self._bloom[hashes[j] % self._bloom_length] for j in range(0, self._number_hashes))"
+_NOOP = "(mv0 == 4294967295 or mv0 == 0)"
+
+contract("CountingBloomFilter.remove_alt", contexts=["CountingBloomFilter"], properties=["C08", "C16", "C14"],
+         params={"hashes": "list[int]", "num_els": "int"}, returns="int",
+         let=[("mv0", _MV), ("t0", "(num_els if mv0 > num_els else mv0)")],
+         requires=_H + [("positive_amount", "num_els >= 1"),
+                        ("removal_is_legitimate",
+                         _NOOP + " or all(self._bloom[c] == 4294967295 or self._bloom[c] >= "
+                         "wsum(hashes, self._number_hashes, self._bloom_length, c, t0) for c in range(0, self._bloom_length))")],
+         modifies=["self._bloom", "self._els_added"],
+         ensures=[("reports_what_is_left", "result == (mv0 if " + _NOOP + " else mv0 - t0)"),
+                  ("absent_or_saturated_key_changes_nothing",
+                   "implies(" + _NOOP + ", self._els_added == old(self._els_added) and "
+                   "all(self._bloom[c] == old(self._bloom[c]) for c in range(0, self._bloom_length)))"),
+                  ("cells_decrease_with_multiplicity_saturated_cells_kept",
+                   "implies(not " + _NOOP + ", all(self._bloom[c] == (old(self._bloom[c]) if old(self._bloom[c]) == 4294967295 "
+                   "else old(self._bloom[c]) - wsum(hashes, self._number_hashes, self._bloom_length, c, t0)) "
+                   "for c in range(0, self._bloom_length)))"),
+                  ("counter_decreases_by_removed_amount",
+                   "implies(not " + _NOOP + ", self._els_added == old(self._els_added) - t0)"),
+                  ("inv", "inv_cbloom(self)")],
+         loops={0: {"invariant": [
+             ("cells", "all(self._bloom[c] == (old(self._bloom[c]) if old(self._bloom[c]) == 4294967295 else "
+                       "old(self._bloom[c]) - wsum(hashes, _i, self._bloom_length, c, t0)) for c in range(0, self._bloom_length))"),
+             ("budget", "all(old(self._bloom[c]) == 4294967295 or (self._bloom[c] >= "
+                        "wsum_range(hashes, _i, self._number_hashes, self._bloom_length, c, t0) and "
+                        "wsum_range(hashes, _i + 1, self._number_hashes, self._bloom_length, c, t0) >= 0) "
+                        "for c in range(0, self._bloom_length))"),
+             ("amount", "to_remove == t0 and t0 >= 1 and not " + _NOOP)]}})
+
+from .bloom import _PARAMS_ONLY, _INIT_RAISES  # noqa: E402
+
+_CFRESH = [("geometry", "self._est_elements == est_elements and self._fpr == f32(false_positive_rate) and "
+                        "self._num_bits == bloom_m(est_elements, f32(false_positive_rate)) and "
+                        "self._number_hashes == bloom_k(est_elements, self._num_bits)"),
+           ("inv", "inv_cbloom(self)"),
+           ("empty", "self._els_added == 0 and all(self._bloom[b] == 0 for b in range(0, self._bloom_length))"),
+           ("hash_function_kept_or_default",
+            "self._hash_func == (hash_function if hash_function is not None else default_fnv_1a)")]
+
+contract("CountingBloomFilter._load_init", contexts=["CountingBloomFilter"], properties=["C08", "C12", "C13", "C19"],
+         params={"filepath": "none", "hash_function": "opt[hashfunc]", "hex_string": "none",
+                 "est_elements": "opt[int]", "false_positive_rate": "opt[float]"},
+         requires=_PARAMS_ONLY, raises=_INIT_RAISES,
+         modifies=["self._est_elements", "self._fpr", "self._bloom_length", "self._hash_func", "self._els_added",
+                   "self._number_hashes", "self._num_bits", "self._bloom", "self._bits_per_elm", "self._type",
+                   "self._typecode"],
+         ensures=_CFRESH + [("counting", "self._typecode == 'I' and self._bits_per_elm == 1.0")])
+
+contract("CountingBloomFilter.__init__", contexts=["CountingBloomFilter"], properties=["C08", "C12", "C13", "C19"],
+         params={"est_elements": "opt[int]", "false_positive_rate": "opt[float]", "filepath": "none",
+                 "hex_string": "none", "hash_function": "opt[hashfunc]"},
+         requires=_PARAMS_ONLY, raises=_INIT_RAISES, modifies=["self"],
+         ensures=_CFRESH + [("counting", "self._typecode == 'I' and self._bits_per_elm == 1.0 and self._on_disk == False")])
+
+_KEYREQ = [("inv", "inv_cbloom(self)"),
+           ("strategy_returns_exactly_number_hashes",
+            "len(strategy(self._hash_func, key, self._number_hashes)) == self._number_hashes")]
+_HK = "strategy(self._hash_func, key, self._number_hashes)"
+
+contract("CountingBloomFilter.add", contexts=["CountingBloomFilter"], properties=["C08", "C16", "C14"],
+         params={"key": "key", "num_els": "int"}, returns="int",
+         requires=_KEYREQ + [("positive_amount", "num_els >= 1"), ("counter_nonneg", "self._els_added >= 0")],
+         modifies=["self._bloom", "self._els_added"],
+         ensures=[("cells_saturating_add_with_multiplicity",
+                   "all(self._bloom[c] == sat32(old(self._bloom[c]) + wsum(" + _HK + ", self._number_hashes, self._bloom_length, c, num_els)) "
+                   "for c in range(0, self._bloom_length))"),
+                  ("counter_saturating_add", "self._els_added == (old(self._els_added) + num_els if "
+                                             "old(self._els_added) + num_els <= 18446744073709551615 else 18446744073709551615)"),
+                  ("inv", "inv_cbloom(self)")])
+
+contract("CountingBloomFilter.check", contexts=["CountingBloomFilter"], properties=["C08", "C19"],
+         params={"key": "key"}, returns="int",
+         requires=_KEYREQ, modifies=[],
+         ensures=[("is_a_cell_of_the_key", "any(result == self._bloom[" + _HK + "[j] % self._num_bits] for j in range(0, self._number_hashes))"),
+                  ("minimum_over_the_keys_cells", "all(result <= self._bloom[" + _HK + "[j] % self._num_bits] for j in range(0, self._number_hashes))")])
+
+contract("CountingBloomFilter._cnt_number_bits_set", contexts=["CountingBloomFilter"], properties=["C14", "C19", "C13"],
+         returns="int", requires=["inv_cbloom(self)"], modifies=[],
+         ensures=[("number_of_nonzero_cells", "result == nonzero_cells(self._bloom, len(self._bloom))")])
+
+contract("CountingBloomFilter.estimate_elements", contexts=["CountingBloomFilter"], properties=["C14", "C19"],
+         returns="int", requires=["inv_cbloom(self)"], modifies=[],
+         ensures=[("standard_estimate",
+                   "result == (-1 if nonzero_cells(self._bloom, len(self._bloom)) >= self._num_bits else "
+                   "est_elements_formula(self._num_bits, self._number_hashes, nonzero_cells(self._bloom, len(self._bloom))))")])
+
+contract("CountingBloomFilter._verify_bloom_similarity", contexts=["CountingBloomFilter"], properties=["C13", "C12"],
+         params={"second": "obj:CountingBloomFilter"}, returns="bool", modifies=[], alias_cases=[("second", "self")],
+         ensures=[("compatible_iff_same_hash_count_bit_count_and_probe_hash", "result == compatible_blooms(self, second)")])
+
+contract("probables.blooms.countingbloom._verify_not_type_mismatch", kind="function", properties=["C13"],
+         params={"second": "obj:CountingBloomFilter"}, returns="bool", variants=[{"second": "foreign"}], modifies=[],
+         ensures=[("is_a_counting_bloom_filter", "result == isinstance(second, CountingBloomFilter)")])
+
+_CSET_REQ = [("receiver_inv", "inv_cbloom(self)"), ("receiver_geometry", "geo_bloom(self)"),
+             ("bits_below_2_53", "self._num_bits < 2**53"),
+             ("second_inv", "not isinstance(second, CountingBloomFilter) or inv_cbloom(second)")]
+_CSET_RAISES = {"TypeError": "not isinstance(second, CountingBloomFilter)"}
+_CRES = [("none_iff_incompatible", "(result is None) == (not compatible_blooms(self, second))"),
+         ("same_geometry", "implies(result is not None, result._num_bits == self._num_bits and "
+                           "result._number_hashes == self._number_hashes and result._bloom_length == self._bloom_length "
+                           "and result._est_elements == self._est_elements and result._fpr == self._fpr and "
+                           "result._hash_func == self._hash_func)"),
+         ("result_inv", "implies(result is not None, inv_cbloom(result))")]
+
+contract("CountingBloomFilter.union", contexts=["CountingBloomFilter"], properties=["C12", "C13", "C16", "C19"],
+         params={"second": "obj:CountingBloomFilter"}, returns="opt[obj:CountingBloomFilter]",
+         requires=_CSET_REQ, raises=_CSET_RAISES, modifies=[], alias_cases=[("second", "self")],
+         variants=[{"second": "foreign"}],
+         ensures=_CRES + [("cells_saturating_sum", "implies(result is not None, all(result._bloom[c] == "
+                                                   "sat32(self._bloom[c] + second._bloom[c]) for c in range(0, self._bloom_length)))")],
+         loops={0: {"invariant": [("prefix", "all(res._bloom[c] == sat32(self._bloom[c] + second._bloom[c]) for c in range(0, _i))")]}})
+
+contract("CountingBloomFilter.intersection", contexts=["CountingBloomFilter"], properties=["C13", "C16", "C19"],
+         params={"second": "obj:CountingBloomFilter"}, returns="opt[obj:CountingBloomFilter]",
+         requires=_CSET_REQ, raises=_CSET_RAISES, modifies=[], alias_cases=[("second", "self")],
+         variants=[{"second": "foreign"}],
+         ensures=_CRES + [("cells_saturating_sum_where_both_positive",
+                           "implies(result is not None, all(result._bloom[c] == "
+                           "(sat32(self._bloom[c] + second._bloom[c]) if (self._bloom[c] > 0 and second._bloom[c] > 0) else 0) "
+                           "for c in range(0, self._bloom_length)))")],
+         loops={0: {"invariant": [("prefix", "all(res._bloom[c] == (sat32(self._bloom[c] + second._bloom[c]) if "
+                                             "(self._bloom[c] > 0 and second._bloom[c] > 0) else 0) for c in range(0, _i))"),
+                                  ("rest_zero", "all(res._bloom[c] == 0 for c in range(_i, self._bloom_length))")]}})
+
+contract("CountingBloomFilter.jaccard_index", contexts=["CountingBloomFilter"], properties=["C13", "C19"],
+         params={"second": "obj:CountingBloomFilter"}, returns="opt[float]",
+         requires=[("receiver_inv", "inv_cbloom(self)"),
+                   ("second_inv", "not isinstance(second, CountingBloomFilter) or inv_cbloom(second)")],
+         raises=_CSET_RAISES, modifies=[], alias_cases=[("second", "self")], variants=[{"second": "foreign"}],
+         let=[("U0", "sum((1 if (self._bloom[i] > 0 or second._bloom[i] > 0) else 0) for i in range(0, self._bloom_length))"),
+              ("I0", "sum((1 if (self._bloom[i] > 0 and second._bloom[i] > 0) else 0) for i in range(0, self._bloom_length))")],
+         ensures=[("none_iff_incompatible", "(result is None) == (not compatible_blooms(self, second))"),
+                  ("ratio_of_occupied_positions", "implies(result is not None, result == (1.0 if U0 == 0 else I0 / U0))"),
+                  ("between_0_and_1", "implies(result is not None, 0.0 <= result <= 1.0)")],
+         loops={0: {"invariant": [
+             ("union_count", "count_union == sum((1 if (self._bloom[i] > 0 or second._bloom[i] > 0) else 0) for i in range(0, _i))"),
+             ("inter_count", "count_inter == sum((1 if (self._bloom[i] > 0 and second._bloom[i] > 0) else 0) for i in range(0, _i))"),
+             ("ordered", "0 <= count_inter <= count_union")]}})
+
+# the base-class constructor body executed with a counting receiver (super().__init__ from CountingBloomFilter)
+contract("BloomFilter.__init__@CountingBloomFilter", contexts=["CountingBloomFilter"], properties=["C08", "C12", "C13", "C19"],
+         params={"est_elements": "opt[int]", "false_positive_rate": "opt[float]", "filepath": "none",
+                 "hex_string": "none", "hash_function": "opt[hashfunc]"},
+         requires=_PARAMS_ONLY, raises=_INIT_RAISES, modifies=["self"],
+         ensures=_CFRESH + [("counting", "self._typecode == 'I' and self._bits_per_elm == 1.0 and self._on_disk == False")])
+
+contract("CountingBloomFilter.remove", contexts=["CountingBloomFilter"], properties=["C08", "C16", "C14"],
+         params={"key": "key", "num_els": "int"}, returns="int",
+         let=[("mv0", "min(self._bloom[" + _HK + "[j] % self._bloom_length] for j in range(0, self._number_hashes))"),
+              ("t0", "(num_els if mv0 > num_els else mv0)")],
+         requires=_KEYREQ + [("positive_amount", "num_els >= 1"),
+                             ("removal_is_legitimate",
+                              _NOOP + " or all(self._bloom[c] == 4294967295 or self._bloom[c] >= "
+                              "wsum(" + _HK + ", self._number_hashes, self._bloom_length, c, t0) for c in range(0, self._bloom_length))")],
+         modifies=["self._bloom", "self._els_added"],
+         ensures=[("reports_what_is_left", "result == (mv0 if " + _NOOP + " else mv0 - t0)"),
+                  ("absent_or_saturated_key_changes_nothing",
+                   "implies(" + _NOOP + ", self._els_added == old(self._els_added) and "
+                   "all(self._bloom[c] == old(self._bloom[c]) for c in range(0, self._bloom_length)))"),
+                  ("cells_decrease_with_multiplicity_saturated_cells_kept",
+                   "implies(not " + _NOOP + ", all(self._bloom[c] == (old(self._bloom[c]) if old(self._bloom[c]) == 4294967295 "
+                   "else old(self._bloom[c]) - wsum(" + _HK + ", self._number_hashes, self._bloom_length, c, t0)) "
+                   "for c in range(0, self._bloom_length)))"),
+                  ("counter_decreases_by_removed_amount",
+                   "implies(not " + _NOOP + ", self._els_added == old(self._els_added) - t0)"),
+                  ("inv", "inv_cbloom(self)")])
